@@ -7,7 +7,10 @@ every interleaving").
                     lattice values rendered as Rust expressions), inputs_codes (the same rows with integer codes),
                     expected (per input: {rel: sorted list of tuples of codes} = least fixed point by the python Kleene
                     oracle; a lattice relation holds exactly one tuple per key), shape)
-        decode a snapshot of a run with  gen.c03_gen.decode_snapshot(case['prog'], snap)  (rows in order, codes).
+        decode a snapshot of a run with  gen.c03_gen.decode_snapshot(case['prog'], snap)  (rows in order, codes);
+        load input k into an ascent_par! program with the script steps  par_set_steps(case, k)  (a plain ('set', ..) step
+        does not compile for lattice relations there: they are boxcar::Vec<RwLock<row>>);
+        compare_snapshot(case, k, snap) -> None | description  is the comparison with the oracle.
 
     run_parallel(tier, seed, pools=(1, 2, 3, 8, 16), tag='c03par') -> dict(mismatches, evaluations, distinct, distribution)
         builds the cases as ascent_par! (with and without #![inter_rule_parallelism]) with feature verif_hooks, runs every
@@ -131,6 +134,17 @@ def par_lattice_cases(tier, seed, rng=None):
     return cases
 
 
+def par_set_steps(case, k):
+    """script steps loading input k into an ascent_par! program: a lattice relation is a boxcar::Vec<RwLock<row>> there"""
+    lats = g.lat_of(case["prog"])
+    inp = case["inputs"][k]
+    steps = [("set", {r: rows for r, rows in inp.items() if r not in lats})]
+    for r, rows in inp.items():
+        if r in lats:
+            steps.append(("raw", "p.%s = vec![%s].into_iter().map(::std::sync::RwLock::new).collect();" % (r, ", ".join(prog.rust_tuple(t) for t in rows))))
+    return steps
+
+
 def compare_snapshot(case, k, snap):
     """None when the snapshot of input k is the least fixed point, else a one-line description"""
     p = case["prog"]
@@ -166,8 +180,8 @@ def run_parallel(tier, seed, pools=(1, 2, 3, 8, 16), tag="c03par", cases=None):
                 seeds = [0] + [rng.randrange(1, 2 ** 31) for _ in range(nsched - 1)]
                 scripts = []
                 for sd in seeds:
-                    for inp in c["inputs"]:
-                        scripts.append([("raw", "ascent::verif_hooks::arm_perturb(%d);" % sd), ("set", inp), ("run",), ("snap",),
+                    for ii in range(len(c["inputs"])):
+                        scripts.append([("raw", "ascent::verif_hooks::arm_perturb(%d);" % sd)] + par_set_steps(c, ii) + [("run",), ("snap",),
                                         ("raw", "ascent::verif_hooks::arm_perturb(0);")])
                 jobs.append(dict(id=jid, text=c["text"], attrs=["#![inter_rule_parallelism]"] if irp else [], macro="ascent_par", rels=c["rels"],
                                  pre=c.get("pre", ""), scripts=scripts, threads=pool))
